@@ -213,12 +213,14 @@ open AcraModel
 
 /-- What the traversal proofs need from the regenerated tables (proved `by decide` in `Props/C16.lean`). -/
 structure TableFacts : Prop where
-  /-- every literal `ValType` is one that `sqlToBindvar` converts -/
-  lit_conv : ∀ ty, literalKinds.contains ty = true → convertedKinds.contains ty = true
+  /-- every literal `ValType` is one that `maskLiterals` replaces -/
+  lit_masked : ∀ ty, literalKinds.contains ty = true → maskedKinds.contains ty = true
   /-- the placeholder type `ValArg` is not a literal type -/
   valarg_not_lit : literalKinds.contains valArgNo = false
   /-- the decimal rendering of the `ValArg` number reads back -/
   valarg_dec : decVal (natDec valArgNo) = some valArgNo
+  /-- a list argument is a leaf for the traversal -/
+  listarg_leaf : walkSpec "ListArg" = .idx []
 
 theorem sqlVal?_mk (ty : Nat) (v : Bytes) (rest : List Tree) :
     sqlVal? (mkSqlVal ty v rest) = (decVal (natDec ty)).map fun n => (n, v) := by
@@ -234,10 +236,14 @@ theorem lits_mkValArg (F : TableFacts) (v : Bytes) (rest : List Tree) :
   rw [lits_node_not_literal hl]
   simp [litsList, lits]
 
-theorem isLiteral_false_of_not_convertible (F : TableFacts) (t : Tree) (h : isConvertible t = false) :
+theorem covered_mkSqlVal (ty : Nat) (v : Bytes) (rest : List Tree) (h : litsList rest = []) :
+    covered (mkSqlVal ty v rest) = true := by
+  simp [mkSqlVal, covered, litsList, lits, h]
+
+theorem isLiteral_false_of_not_masked (F : TableFacts) (t : Tree) (h : isMasked t = false) :
     isLiteral t = false := by
   unfold isLiteral
-  unfold isConvertible at h
+  unfold isMasked at h
   cases hs : sqlVal? t with
   | none => rfl
   | some r =>
@@ -245,65 +251,116 @@ theorem isLiteral_false_of_not_convertible (F : TableFacts) (t : Tree) (h : isCo
     simp only at h ⊢
     cases hl : literalKinds.contains r.1 with
     | false => rfl
-    | true => rw [F.lit_conv _ hl] at h; cases h
+    | true => rw [F.lit_masked _ hl] at h; cases h
 
-/-- `convertSQLVal` leaves no literal when the node's other fields hold none -/
-theorem convert_lits (F : TableFacts) (pfx : Bytes) (k : String) (ks : List Tree) (s : St)
-    (h : litsList ks = []) : lits (convert pfx (.node k ks) s).1 = [] := by
-  unfold convert
-  by_cases hc : isConvertible (.node k ks) = true
+/-- `maskLiterals` on a value node leaves no literal when the node's other fields hold none -/
+theorem maskVal_lits (F : TableFacts) (pfx : Bytes) (k : String) (ks : List Tree) (s : St)
+    (h : litsList ks = []) : lits (maskVal pfx (.node k ks) s).1 = [] := by
+  unfold maskVal
+  by_cases hc : isMasked (.node k ks) = true
   · simp only [hc, if_true]
     rw [lits_mkValArg F]
     exact litsList_drop_nil ks 2 h
   · simp only [hc]
-    have := isLiteral_false_of_not_convertible F _ (by simpa using hc)
+    have := isLiteral_false_of_not_masked F _ (by simpa using hc)
     simp [lits_node_not_literal this, h]
 
-theorem convertDedup_lits (F : TableFacts) (pfx : Bytes) (k : String) (ks : List Tree) (s : St)
-    (h : litsList ks = []) : lits (convertDedup pfx (.node k ks) s).1 = [] := by
+mutual
+/-- the masking pass leaves no literal in a covered tree -/
+theorem maskWalk_lits (F : TableFacts) (pfx : Bytes) :
+    ∀ (t : Tree) (s : St), covered t = true → lits (maskWalk pfx t s).1 = []
+  | .atom b, s, _ => by simp [maskWalk, lits]
+  | .node k ks, s, h => by
+    rw [maskWalk.eq_2]
+    by_cases hk : (k == "SQLVal") = true
+    · have hks : litsList ks = [] := by
+        rw [covered, if_pos hk] at h
+        simpa using h
+      simp only [hk, if_true]
+      exact maskVal_lits F pfx k ks s hks
+    · have hcov : coveredKids (walkSpec k) 0 ks = true := by
+        rw [covered, if_neg hk] at h; exact h
+      have hne : k ≠ "SQLVal" := by simpa using hk
+      simp only [hk, Bool.false_eq_true, if_false]
+      rw [lits_node_of_ne hne]
+      exact maskKids_lits F pfx (walkSpec k) 0 ks s hcov
+theorem maskKids_lits (F : TableFacts) (pfx : Bytes) (spec : WalkSpec) :
+    ∀ (i : Nat) (ks : List Tree) (s : St), coveredKids spec i ks = true →
+      litsList (maskKids pfx spec i ks s).1 = []
+  | _, [], _, _ => by simp [maskKids, litsList]
+  | i, c :: cs, s, h => by
+    rw [coveredKids, Bool.and_eq_true] at h
+    rw [maskKids.eq_2]
+    simp only [litsList]
+    have htail := maskKids_lits F pfx spec (i + 1) cs
+      (if spec.visits i = true then maskWalk pfx c s else (c, s)).2 h.2
+    rw [htail, List.append_nil]
+    by_cases hv : spec.visits i = true
+    · simp only [hv, if_true]
+      have hc : covered c = true := by simpa [hv] using h.1
+      exact maskWalk_lits F pfx c s hc
+    · simp only [hv, Bool.false_eq_true, if_false]
+      simpa [hv] using h.1
+end
+
+/-! ### `Normalize` keeps a covered tree covered -/
+
+theorem convert_covered (valid : Validator) (pfx : Bytes) (k : String) (ks : List Tree) (s : St)
+    (hk : (k == "SQLVal") = true) (h : litsList ks = []) : covered (convert valid pfx (.node k ks) s).1 = true := by
+  unfold convert
+  split
+  · exact covered_mkSqlVal _ _ _ (litsList_drop_nil ks 2 h)
+  · simp [covered, hk, h]
+
+theorem convertDedup_covered (valid : Validator) (pfx : Bytes) (k : String) (ks : List Tree) (s : St)
+    (hk : (k == "SQLVal") = true) (h : litsList ks = []) : covered (convertDedup valid pfx (.node k ks) s).1 = true := by
+  have hself : covered (.node k ks) = true := by simp [covered, hk, h]
+  have hd := litsList_drop_nil ks 2 h
   unfold convertDedup
-  cases hs : sqlVal? (.node k ks) with
-  | none =>
-    have : isLiteral (.node k ks) = false := by unfold isLiteral; rw [hs]
-    simp [lits_node_not_literal this, h]
-  | some r =>
-    obtain ⟨ty, v⟩ := r
-    simp only
-    by_cases hlen : v.length > 256
-    · simp only [hlen, if_true]; exact convert_lits F pfx k ks s h
-    · simp only [hlen, if_false]
-      by_cases hcv : convertedKinds.contains ty = true
-      · simp only [hcv, Bool.not_true, Bool.false_eq_true, if_false]
-        have hd := litsList_drop_nil ks 2 h
-        split <;> (rw [lits_mkValArg F]; exact hd)
-      · simp only [hcv, Bool.not_false, if_true]
-        have hnc : isConvertible (.node k ks) = false := by
-          unfold isConvertible; rw [hs]; simpa using hcv
-        have := isLiteral_false_of_not_convertible F _ hnc
-        simp [lits_node_not_literal this, h]
+  split
+  · exact hself
+  · split
+    · exact convert_covered valid pfx k ks s hk h
+    · split
+      · exact hself
+      · simp only []
+        repeat' split
+        all_goals exact covered_mkSqlVal _ _ _ hd
 
-theorem convertComparison_cases (pfx : Bytes) (ks : List Tree) (s : St) :
-    (convertComparison pfx ks s).1 = none ∨
-    ∃ n, (convertComparison pfx ks s).1 = some (cmpRightIdx, .node "ListArg" [.atom n]) := by
+theorem convertComparison_cases (valid : Validator) (pfx : Bytes) (ks : List Tree) (s : St) :
+    (convertComparison valid pfx ks s).1 = none ∨
+    ∃ n, (convertComparison valid pfx ks s).1 = some (cmpRightIdx, .node "ListArg" [.atom n]) := by
   unfold convertComparison
   simp only []
   repeat' split
   all_goals first | (left; rfl) | (right; exact ⟨_, rfl⟩)
 
-theorem convertComparison_la (pfx : Bytes) (ks : List Tree) (s : St) (i : Nat) (la : Tree)
-    (h : (convertComparison pfx ks s).1 = some (i, la)) : lits la = [] := by
-  rcases convertComparison_cases pfx ks s with hn | ⟨n, hn⟩
-  · rw [hn] at h; cases h
-  · rw [hn] at h
-    simp only [Option.some.injEq, Prod.mk.injEq] at h
-    rw [← h.2]
-    simp [lits, isLiteral, sqlVal?, litsList]
+theorem listArg_props (F : TableFacts) (n : Bytes) :
+    covered (.node "ListArg" [.atom n]) = true ∧ lits (.node "ListArg" [.atom n]) = [] := by
+  constructor
+  · rw [covered]
+    simp only [show ("ListArg" == "SQLVal") = false by decide, Bool.false_eq_true, if_false]
+    rw [F.listarg_leaf]
+    simp [coveredKids, WalkSpec.visits, lits]
+  · simp [lits, isLiteral, sqlVal?, litsList]
+
+theorem coveredKids_set (spec : WalkSpec) (la : Tree) (hc : covered la = true) (hl : lits la = []) :
+    ∀ (i j : Nat) (l : List Tree), coveredKids spec i l = true → coveredKids spec i (l.set j la) = true
+  | _, _, [], _ => by simp [coveredKids]
+  | i, 0, c :: cs, h => by
+    rw [coveredKids, Bool.and_eq_true] at h
+    rw [List.set_cons_zero, coveredKids, Bool.and_eq_true]
+    refine ⟨?_, h.2⟩
+    split <;> simp [hc, hl]
+  | i, j + 1, c :: cs, h => by
+    rw [coveredKids, Bool.and_eq_true] at h
+    rw [List.set_cons_succ, coveredKids, Bool.and_eq_true]
+    exact ⟨h.1, coveredKids_set spec la hc hl (i + 1) j cs h.2⟩
 
 mutual
-/-- a covered tree leaves the traversal without literals -/
-theorem walk_lits (F : TableFacts) (pfx : Bytes) (sel : Bool) :
-    ∀ (t : Tree) (s : St), covered t = true → lits (walk pfx sel t s).1 = []
-  | .atom b, s, _ => by simp [walk, lits]
+theorem walk_covered (F : TableFacts) (valid : Validator) (pfx : Bytes) (sel : Bool) :
+    ∀ (t : Tree) (s : St), covered t = true → covered (walk valid pfx sel t s).1 = true
+  | .atom b, s, _ => by simp [walk, covered]
   | .node k ks, s, h => by
     rw [walk.eq_2]
     by_cases hk : (k == "SQLVal") = true
@@ -312,56 +369,51 @@ theorem walk_lits (F : TableFacts) (pfx : Bytes) (sel : Bool) :
         simpa using h
       simp only [hk, if_true]
       cases sel
-      · simp only [Bool.false_eq_true, if_false]; exact convert_lits F pfx k ks s hks
-      · simp only [if_true]; exact convertDedup_lits F pfx k ks s hks
+      · simp only [Bool.false_eq_true, if_false]; exact convert_covered valid pfx k ks s hk hks
+      · simp only [if_true]; exact convertDedup_covered valid pfx k ks s hk hks
     · have hcov : coveredKids (walkSpec k) 0 ks = true := by
         rw [covered, if_neg hk] at h; exact h
-      have hne : k ≠ "SQLVal" := by simpa using hk
       simp only [hk, Bool.false_eq_true, if_false]
-      generalize hc : (if (k == "ComparisonExpr") = true then convertComparison pfx ks s else (none, s)) = c
+      generalize hc : (if (k == "ComparisonExpr") = true then convertComparison valid pfx ks s else (none, s)) = c
       obtain ⟨co, s1⟩ := c
-      have hkids := walkKids_lits F pfx (sel || k == "Select") (walkSpec k) (co.map (·.1)) 0 ks s1 hcov
+      have hkids := walkKids_covered F valid pfx (sel || k == "Select") (walkSpec k) (co.map (·.1)) 0 ks s1 hcov
       cases co with
       | none =>
         simp only [Option.map_none] at hkids ⊢
-        rw [lits_node_of_ne hne]
-        rw [litsExcept_none] at hkids
+        rw [covered, if_neg hk]
         exact hkids
       | some p =>
         obtain ⟨i, la⟩ := p
         simp only [Option.map_some] at hkids ⊢
-        rw [lits_node_of_ne hne]
-        have hla : lits la = [] := by
+        rw [covered, if_neg hk]
+        have hla : covered la = true ∧ lits la = [] := by
           by_cases hcmp : (k == "ComparisonExpr") = true
           · simp only [hcmp, if_true] at hc
-            exact convertComparison_la pfx ks s i la (by rw [hc])
+            rcases convertComparison_cases valid pfx ks s with hn | ⟨n, hn⟩
+            · rw [hc] at hn; cases hn
+            · rw [hc] at hn
+              simp only [Option.some.injEq, Prod.mk.injEq] at hn
+              rw [hn.2]; exact listArg_props F n
           · simp only [hcmp] at hc
             cases hc
-        have := litsList_set (walkKids pfx (sel || k == "Select") (walkSpec k) (some i) 0 ks s1).1 i 0 la hla
-        rw [Nat.zero_add] at this
-        rw [this]
-        exact hkids
-theorem walkKids_lits (F : TableFacts) (pfx : Bytes) (sel : Bool) (spec : WalkSpec) (skip : Option Nat) :
+        exact coveredKids_set _ la hla.1 hla.2 0 i _ hkids
+theorem walkKids_covered (F : TableFacts) (valid : Validator) (pfx : Bytes) (sel : Bool) (spec : WalkSpec) (skip : Option Nat) :
     ∀ (i : Nat) (ks : List Tree) (s : St), coveredKids spec i ks = true →
-      litsExcept skip i (walkKids pfx sel spec skip i ks s).1 = []
-  | _, [], _, _ => by simp [walkKids, litsExcept]
+      coveredKids spec i (walkKids valid pfx sel spec skip i ks s).1 = true
+  | _, [], _, _ => by simp [walkKids, coveredKids]
   | i, c :: cs, s, h => by
     rw [coveredKids, Bool.and_eq_true] at h
-    rw [walkKids.eq_2]
-    simp only [litsExcept]
-    have htail := walkKids_lits F pfx sel spec skip (i + 1) cs
-      (if (spec.visits i && skip != some i) = true then walk pfx sel c s else (c, s)).2 h.2
-    rw [htail, List.append_nil]
-    by_cases hsk : (skip == some i) = true
-    · simp [hsk]
-    · simp only [hsk, Bool.false_eq_true, if_false]
-      by_cases hv : spec.visits i = true
-      · have hne : (skip != some i) = true := by simpa [bne] using hsk
-        simp only [hv, hne, Bool.and_self, if_true]
+    rw [walkKids.eq_2, coveredKids, Bool.and_eq_true]
+    refine ⟨?_, walkKids_covered F valid pfx sel spec skip (i + 1) cs _ h.2⟩
+    by_cases hv : spec.visits i = true
+    · by_cases hsk : (skip != some i) = true
+      · simp only [hv, hsk, Bool.and_self, if_true]
         have hc : covered c = true := by simpa [hv] using h.1
-        exact walk_lits F pfx sel c s hc
-      · simp only [hv, Bool.false_and, Bool.false_eq_true, if_false]
+        exact walk_covered F valid pfx sel c s hc
+      · simp only [hv, hsk, Bool.and_false, Bool.false_eq_true, if_false]
         simpa [hv] using h.1
+    · simp only [hv, Bool.false_and, Bool.false_eq_true, if_false]
+      simpa [hv] using h.1
 end
 
 end AcraModel.Sql
